@@ -172,9 +172,10 @@ Fixpoint field_errors (fs : list field) (sfs : list sfield) (off : nat) : list s
   end.
 
 Definition layout_errors (c : cls) (v : variant) : list string :=
-  (if String.eqb (class_name c) (variant_class v) then [] else ["class name"]) ++
-  (if Nat.eqb (total_width (spec_layout v)) (nominal v) then [] else ["nominal length"]) ++
-  field_errors (fields_of c) (spec_layout v) 0.
+  map (fun e => variant_class v ++ "." ++ e)
+      ((if String.eqb (class_name c) (variant_class v) then [] else ["class name is " ++ class_name c]) ++
+       (if Nat.eqb (total_width (spec_layout v)) (nominal v) then [] else ["nominal length"]) ++
+       field_errors (fields_of c) (spec_layout v) 0).
 
 Local Close Scope string_scope.
 
